@@ -46,6 +46,20 @@ def scenarios(draw):
                      # experiments differ in what IsoQuant derives from the data itself: number of unaligned reads and
                      # share of polyA-tailed reads (the `auto` polyA requirement is decided per experiment)
                      "unmapped": src.choice([0, 0, 1, 2, 5]), "tails": src.choice(["as_is", "as_is", "all", "none"])})
+    # experiment names as given by the user: usually distinct; sometimes repeated or of the form <prefix><index> that
+    # IsoQuant itself uses when it renames a repeated name
+    if src.bool(0.25):
+        for e in exps:
+            e["given"] = src.choice(["A", "A", "B", "OUT2", "OUT3"])
+    # feature ids that table readers like to take for missing values
+    if src.bool(0.2):
+        ids = src.shuffle(["NA", "nan", "null", "None", "N/A"])
+        for g in sc["genes"]:
+            if ids and src.bool(0.5):
+                g["id"] = ids.pop()
+            for t in g["transcripts"]:
+                if ids and src.bool(0.3):
+                    t["id"] = ids.pop()
     sc["reads"] = allreads
     sc["experiments"] = exps
     sc["order"] = src.shuffle(list(range(ne)))
@@ -115,7 +129,7 @@ def write_inputs(sc, d):
 def yaml_for(exps, files, path):
     doc = [{"data format": "bam"}]
     for e in exps:
-        ent = {"name": e["name"], "long read files": files[e["name"]]}
+        ent = {"name": e.get("given", e["name"]), "long read files": files[e["name"]]}
         if e["labels"]:
             ent["labels"] = ["%s_rep%d" % (e["name"], i) for i in range(len(files[e["name"]]))]
         doc.append(ent)
@@ -127,7 +141,7 @@ def yaml_for(exps, files, path):
 def list_for(exps, files, path):
     with open(path, "w") as f:
         for e in exps:
-            f.write("#%s\n" % e["name"])
+            f.write("#%s\n" % e.get("given", e["name"]))
             for i, b in enumerate(files[e["name"]]):
                 f.write(b + (":%s_rep%d" % (e["name"], i) if e["labels"] else "") + "\n")
             f.write("\n")
@@ -149,12 +163,35 @@ def evaluate(case, ctx):
         ctx.pipeline_runs += 1
         code = run.run_fork(common + inp + ["-o", joint_out, "--threads", str(sc["threads"])],
                             os.path.join(d, "home_joint"), os.path.join(d, "joint.log"))
+        if code != 0 and "Change experiment name" in open(os.path.join(d, "joint.log"), errors="replace").read():
+            # repeated names that IsoQuant cannot replace are rejected with an explicit request to rename
+            ctx.note("rejected:experiment-names")
+            return
         if code != 0:
             r = pipeline.Result(d, code, joint_out, {}, os.path.join(d, "joint.log"))
             ctx.violation("C10:joint-run-fails:" + r.crash_signature().split("@")[0], {"log": r.log_tail(12)}, case)
             return
+        # names of the experiment folders: a repeated name is replaced (IsoQuant logs the replacement)
+        renames = [l.split("will change to ")[1].strip() for l in open(os.path.join(d, "joint.log"), errors="replace")
+                   if "Duplicate folder prefix" in l and "will change to " in l]
+        seen_names = set()
+        for e in exps:
+            nm = e.get("given", e["name"])
+            if nm in seen_names:
+                if not renames:
+                    ctx.violation("C10:repeated-experiment-name-not-renamed", {"name": nm}, case)
+                    return
+                nm = renames.pop(0)
+            if nm in seen_names:
+                ctx.violation("C10:two-experiments-share-one-output-folder", {
+                    "folder": nm, "given_names": [x.get("given", x["name"]) for x in exps]}, case)
+                return
+            seen_names.add(nm)
+            e["final"] = nm
         known_by_exp = {}
         for e in exps:
+            e = dict(e)
+            e["given"] = e["final"]
             solo_out = os.path.join(d, "solo_" + e["name"])
             if sc["input_kind"] == "yaml":
                 sinp = ["--yaml", yaml_for([e], files, os.path.join(d, "in", "solo_%s.yaml" % e["name"]))]
@@ -166,8 +203,8 @@ def evaluate(case, ctx):
             if code != 0:
                 ctx.note("solo_run_failed")
                 continue
-            pos = exps.index(e)
-            diffs = compare.diff_dirs(joint_out, e["name"], solo_out, e["name"])
+            pos = [x["name"] for x in exps].index(e["name"])
+            diffs = compare.diff_dirs(joint_out, e["final"], solo_out, e["final"])
             for kind, f, det in diffs:
                 if kind == "only-in-first" and "grouped" in f:
                     sig = "C10:joint-run-writes-extra-grouped-files-for-single-file-experiment"
@@ -179,7 +216,7 @@ def evaluate(case, ctx):
                     sig = "C10:experiment-output-differs:%s:%s" % (kind, f)
                 ctx.violation(sig, {"experiment": e["name"], "position": pos, "kind": kind, "file": f, "detail": det,
                                     "threads": sc["threads"], "nfiles": [x["nfiles"] for x in exps]}, case)
-            tm = compare.file_map(solo_out, e["name"]).get("transcript_models.gtf")
+            tm = compare.file_map(solo_out, e["final"]).get("transcript_models.gtf")
             if tm:
                 known_by_exp[e["name"]] = set(l.split('transcript_id "')[1].split('"')[0]
                                               for l in parse.data_lines(tm) if "\ttranscript\t" in l and
@@ -192,26 +229,26 @@ def evaluate(case, ctx):
                 if not os.path.exists(cp):
                     ctx.violation("C10:combined-table-missing", {"file": os.path.basename(cp)}, case)
                     continue
-                comb = pd.read_csv(cp, sep="\t")
-                names = [e["name"] for e in exps]
+                comb = pd.read_csv(cp, sep="\t", dtype={"#feature_id": str}, keep_default_na=False, na_values=[""])
+                names = [e["final"] for e in exps]
                 if list(comb.columns) != ["#feature_id"] + names:
                     ctx.violation("C10:combined-table-columns-differ", {"file": os.path.basename(cp),
                                                                        "columns": list(comb.columns),
                                                                        "expected": names}, case)
                     continue
                 for e in exps:
-                    ind = parse.counts_simple(os.path.join(joint_out, e["name"], "%s.%s_%s.tsv" % (e["name"], level,
-                                                                                                    kind)))
+                    ind = parse.counts_simple(os.path.join(joint_out, e["final"], "%s.%s_%s.tsv" % (e["final"], level,
+                                                                                                     kind)))
                     if kind == "counts":
                         ind = {k: v for k, v in ind.items() if not k.startswith("__")}
                     got = {}
-                    for f_, v_ in zip(comb["#feature_id"], comb[e["name"]]):
+                    for f_, v_ in zip(comb["#feature_id"], comb[e["final"]]):
                         if v_ == v_:
                             got[f_] = float(v_)
                     if set(got) != set(ind) or any(abs(got[k] - ind[k]) > 1e-6 for k in ind):
                         bad = [k for k in set(got) | set(ind) if abs(got.get(k, -1) - ind.get(k, -1)) > 1e-6][:3]
                         ctx.violation("C10:combined-column-differs-from-experiment-table",
-                                      {"file": os.path.basename(cp), "experiment": e["name"], "features": bad,
+                                      {"file": os.path.basename(cp), "experiment": e["final"], "features": bad,
                                        "combined": [got.get(k) for k in bad], "individual": [ind.get(k) for k in bad]},
                                       case)
         ctx.cls("threads=%d" % sc["threads"], "input=" + sc["input_kind"], "experiments=%d" % len(exps),
